@@ -126,6 +126,8 @@ class SimHost(BaseAdapter):
                 'state': data['state'], 'context': data['context'],
                 'target_url': data.get('target_url'),
                 'description': data.get('description')}), {}
+        if path in getattr(self, 'extra_routes', {}):
+            return 200, json.dumps(self.extra_routes[path]), {}
         if path == pre:
             return 200, json.dumps(self.gh_repo()), {}
         if path == '/user':
